@@ -41,7 +41,8 @@ enum { ES_free = 0, ES_inactive = 1, ES_active = 2 };
 struct node { struct node* next; uint64_t construction_era, retirement_era;
               /* ghost */ uintptr_t addr; unsigned deleted; int deleter; };
 struct slot { uintptr_t value; uint64_t guard_cnt; };
-struct tcb { struct tcb* next_entry; int state; struct slot pointers[XV_K]; };   /* HE: the array member `eras` is renamed to pointers by the unit */
+struct hpblock { struct hpblock* next; size_t size; };
+struct tcb { struct tcb* next_entry; int state; struct slot pointers[XV_K]; size_t total_number_of_hps; struct hpblock* hp_block; };   /* HE: the array member `eras` is renamed to pointers by the unit */
 struct tbl { struct tcb* head; struct node* abandoned_retired_nodes; };
 struct tbl_iter { struct tcb* ptr; };
 struct td { struct node* retire_list; size_t number_of_retired_nodes; struct slot* hint; struct tcb* control_block; };
@@ -208,11 +209,23 @@ static void n_delete_self(struct node* n) {
 #define HP_try_get_object(s, r) hp_try_get_object(&(s), &(r))
 #define HP_TCB_begin(t) hp_tcb_begin(&(t))
 #define HP_TCB_end(t) hp_tcb_end(&(t))
+#ifdef XV_DYNAMIC
+#define HP_TCB_number_of_hps(t) hp_dyn_number_of_hps(&(t))
+#define HE_TCB_number_of_hes(t) he_dyn_number_of_hes(&(t))
+#else
 #define HP_TCB_number_of_hps(t) hp_tcb_number_of_hps(&(t))
+#define HE_TCB_number_of_hes(t) he_tcb_number_of_hes(&(t))
+#endif
+/* stubs for the slot-list side of initialize / block allocation (units hp, he; C18) */
+struct hpblock g_newblock; unsigned g_newblock_n, g_initblock_n; size_t g_newblock_size;
+static struct hpblock* XV_NEW_BLOCK(size_t n) { g_newblock_n++; g_newblock_size = n; g_newblock.size = n; g_newblock.next = (struct hpblock*)0; return &g_newblock; }
+#define XV_MAX(a, b) ((a) > (b) ? (a) : (b))
+static struct slot* xv_init_block(struct tcb* t) { g_initblock_n++; return &t->pointers[0]; }
+#define XV_INIT_BLOCK(t) xv_init_block(&(t))
+#define XV_INIT_BLOCK_M(self, blk) (g_initblock_n++, (struct slot*)0)
 #define HE_try_get_era(s, r) he_try_get_era(&(s), &(r))
 #define HE_TCB_begin(t) he_tcb_begin(&(t))
 #define HE_TCB_end(t) he_tcb_end(&(t))
-#define HE_TCB_number_of_hes(t) he_tcb_number_of_hes(&(t))
 #ifdef XV_ABS_VEC
 /* contract stub of <tcb>::gather_protected_pointers / gather_protected_eras (proved for the real text by run *_gather): reads every slot
  * of this entry exactly once and adds exactly the non-link words (HE: the eras they encode) to the vector */
@@ -547,6 +560,45 @@ void h_dtor(void) {
     for (unsigned k = 0; k < XV_E; k++) XV_OBL("hpscan.dtor.releases_record", epool(k).state == (k == in_cb ? ES_free : in_state[k]));
     XV_CANARY("dtor.released");
   } else { XV_OBL("hpscan.dtor.releases_record", g_state_store_n == 0 && g_cnt_sub_n == 0 && number_of_active_hps == cnt0); XV_CANARY("dtor.no_record"); }
+}
+
+/* =============================== active-slot counter =============================== */
+unsigned g_cnt_add_n; uint64_t g_cnt_add_v;
+void h_balance(void) {
+  havoc_state(); XV_ASSUME(in_ne >= 1);
+  unsigned k = nondet_uint(); XV_ASSUME(k < in_ne); struct tcb* r = ENTRY(k);
+  size_t T = nondet_size(); XV_ASSUME(T >= XV_K && T < ((size_t)1 << 40));
+#ifndef XV_DYNAMIC
+  XV_ASSUME(T == XV_K);
+#endif
+  r->total_number_of_hps = T; r->hp_block = (struct hpblock*)0; r->state = ES_active;
+  size_t c0 = number_of_active_hps; struct slot* hint = (struct slot*)0; struct hpblock* b0 = r->hp_block;
+#ifdef XV_HE
+  he_tcb_initialize(r, &hint);
+#else
+  hp_tcb_initialize(r, &hint);
+#endif
+  XV_OBL("hpscan.active_hps.balanced", number_of_active_hps == c0 + T && g_initblock_n == 1 && r->total_number_of_hps == T);
+  size_t grown = 0;
+#ifdef XV_DYNAMIC
+  if (nondet_bool()) {
+#ifdef XV_HE
+    he_allocate_new_block(r);
+#else
+    hp_allocate_new_block(r);
+#endif
+    grown = (T / 2 > XV_K) ? T / 2 : XV_K;
+    XV_OBL("hpscan.active_hps.balanced", r->total_number_of_hps == T + grown && number_of_active_hps == c0 + T + grown);
+    XV_OBL("hpscan.active_hps.balanced", g_newblock_n == 1 && g_newblock_size == grown && r->hp_block == &g_newblock && g_newblock.next == b0);
+    XV_CANARY("balance.grown");
+  } else XV_CANARY("balance.plain");
+#else
+  XV_CANARY("balance.plain");
+#endif
+  TCB_abandon(*r);
+  XV_OBL("hpscan.active_hps.balanced", number_of_active_hps == c0);
+  XV_OBL("hpscan.active_hps.balanced", r->state == ES_free);
+  XV_OBL("hpscan.active_hps.balanced", r->total_number_of_hps == T + grown);
 }
 
 /* =============================== retire trigger (guard_ptr::reclaim) =============================== */
